@@ -38,19 +38,27 @@ pub struct Case {
 }
 
 pub fn build(slots: &[(u64, u64)], used: bool, kind_offset: usize) -> Case {
+    build_u(slots, used, kind_offset, false)
+}
+
+/// `unbound`: module-scope variables without @group/@binding declared between the resources.
+pub fn build_u(slots: &[(u64, u64)], used: bool, kind_offset: usize, unbound: bool) -> Case {
     let mut src = String::new();
     let mut body = String::from("    var acc: f32 = 0.0;\n");
     for (i, (g, b)) in slots.iter().enumerate() {
         let kind = KINDS[(i + kind_offset) % KINDS.len()];
         // names chosen so that declaration order, alphabetical order and index order differ
         let name = format!("{}{}", ["zz", "mm", "aa", "qq", "bb"][i % 5], i);
+        if unbound {
+            src.push_str(&format!("var<{}> free{i}: f32;\n", if i % 2 == 0 { "private" } else { "workgroup" }));
+        }
         src.push_str(&decl(kind, &name, *g, *b));
         if used {
             body.push_str(&touch(kind, &name));
         }
     }
     src.push_str(&format!("@compute @workgroup_size(1) fn main() {{\n{body}}}\n"));
-    let key = format!("slots={}|used={}", slots.iter().map(|(g, b)| format!("{g}.{b}")).collect::<Vec<_>>().join(","), used as u8);
+    let key = format!("slots={}|used={}{}", slots.iter().map(|(g, b)| format!("{g}.{b}")).collect::<Vec<_>>().join(","), used as u8, if unbound { "|unbound" } else { "" });
     Case { key, slots: slots.to_vec(), used, src }
 }
 
@@ -229,6 +237,9 @@ pub fn cases(thorough: bool) -> Vec<Case> {
             let off = seq.iter().sum::<usize>();
             for used in [false, true] {
                 out.push(build(&slots, used, off));
+            }
+            if d >= 2 && d <= 3 {
+                out.push(build_u(&slots, false, off, true));
             }
         }
     }
